@@ -43,6 +43,8 @@ PURE = {
     "std::slice::as_mut_ptr": "as_ptr",
     "std::array::as_slice": "as_slice",
     "std::slice::get": "slice_get",
+    "std::slice::is_empty": "is_empty",
+    "std::vec::Vec::is_empty": "is_empty",
     "std::slice::iter": "slice_iter",
     "std::convert::Into::into": "into",
     "std::convert::From::from": "from",
@@ -83,6 +85,10 @@ PURE = {
     "std::ptr::slice_from_raw_parts": "slice_from_raw_parts",
     "std::clone::Clone::clone": "clone",
     "std::iter::ExactSizeIterator::len": "len",
+    "std::ptr::const_ptr::cast_mut": "ident",
+    "std::ptr::mut_ptr::cast_const": "ident",
+    "std::ptr::const_ptr::cast": "ident",
+    "std::ptr::mut_ptr::cast": "ident",
     "std::ops::Try::branch": "Try::branch",
     "std::ops::FromResidual::from_residual": "Try::from_residual",
     "std::cmp::Ordering::is_lt": "ord_is:lt",
@@ -400,12 +406,17 @@ class Evaluator:
                         self._pending.append(("payload", ctx, bb, v[2][0]))
                 elif kind == "call":
                     opts.append(self.call(ctx, bb, payload))
+                elif kind == "mutcall":
+                    opts.append(("call", "Vec::pushed", (("cyclic", body.debug_names.get(l, "_%d" % l)),
+                                                         self.operand(ctx, payload["args"][1]))))
                 else:
                     opts.append(("unknown", "partial-assign"))
             if not opts:
                 r = ("unknown", "undef _%d" % l)
             else:
                 r = mk_phi(opts)
+                if r[0] == "phi" and len(r[1]) == 2:
+                    r = self._idiom(ctx, l, r)
                 if r[0] == "phi":
                     self._pending.append(("option", ctx, l, r))
         finally:
@@ -420,6 +431,45 @@ class Evaluator:
                 else:
                     self._record_option_facts(item[1], item[2], item[3])
         return r
+
+    def _idiom(self, ctx, l, phi):
+        """`if a < b { a } else { b }` is min(a, b), `if b < a { a - b } else { 0 }` is a.saturating_sub(b), ...: a local
+        assigned in the two arms of one comparison is rewritten to the std function it spells out, so that rules see one
+        form. Anything that does not match exactly stays a phi."""
+        from guards import block_facts, unref
+        body = ctx.body
+        defs = [d for d in body.defs().get(l, []) if not body.blocks[d[0]]["cleanup"]]
+        if len(defs) != 2 or any(d[2] != "assign" for d in defs) or (1 <= l <= body.arg_count):
+            return phi
+        (b1, _, _, rv1), (b2, _, _, rv2) = defs
+        if b1 == b2 or contains(phi, lambda x: x[0] == "cyclic"):
+            return phi
+        # (guard facts are evaluated below while this local is still being evaluated: only outside loops, where the
+        #  dominating conditions cannot depend on the local itself)
+        if any(b1 in lp or b2 in lp for (_h, lp) in body.natural_loops()):
+            return phi
+        v1, v2 = unref(self.rvalue(ctx, rv1)), unref(self.rvalue(ctx, rv2))
+        f1s = [f for f in block_facts(self, ctx, b1) if len(f) == 3 and f[0] in ("lt", "le")]
+        f2s = [f for f in block_facts(self, ctx, b2) if len(f) == 3 and f[0] in ("lt", "le")]
+        neg = {"lt": "le", "le": "lt"}
+        for f in f1s:
+            g = (neg[f[0]], f[2], f[1])
+            if g not in f2s:
+                continue
+            if any(x[0] in ("cyclic", "unknown") for x in (f[1], f[2])):
+                continue
+            # in arm 1: x (<|<=) y ; in arm 2: y (<=|<) x
+            x, y = unref(f[1]), unref(f[2])
+            for (va, vb, p, q) in ((v1, v2, x, y), (v2, v1, y, x)):
+                # va is the value where p (<|<=) q holds, vb where q (<=|<) p holds
+                if va == p and vb == q:
+                    return ("call", "min", (p, q))
+                if va == q and vb == p:
+                    return ("call", "max", (p, q))
+                if va[0] == "bin" and va[1] == "Sub" and unref(va[2]) == q and unref(va[3]) == p and vb == ("int", 0):
+                    return ("call", "saturating_sub", (q, p))
+            return phi
+        return phi
 
     def place(self, ctx, p):
         t = self.local(ctx, p["l"])
@@ -510,6 +560,8 @@ class Evaluator:
             return ("atomic", c.name, args[0] if args else ("unknown", "noarg"), args[1:], site)
         mk = callee_model_key(c)
         model = PURE.get(mk)
+        if model in ("from", "into") and self._conv_impl(c) is not None:
+            model = None  # a conversion implemented by the crate itself: inlined like any other local function
         if model:
             return self.model_call(ctx, model, args, c)
         nctx = self.callee_ctx(ctx, bb, args)
@@ -525,9 +577,10 @@ class Evaluator:
         body = ctx.body
         c = body.callee(bb)
         nctx = None
-        if c is not None and not c.indirect and not is_atomic(c) and PURE.get(callee_model_key(c)) is None \
+        conv = self._conv_impl(c) if (c is not None and not c.indirect) else None
+        if c is not None and not c.indirect and not is_atomic(c) and (PURE.get(callee_model_key(c)) is None or conv) \
                 and self.inline and ctx.depth < self.MAX_DEPTH:
-            d = self.facts.resolve_callee(c, ctx.self_adt, self.bind(ctx))
+            d = conv or self.facts.resolve_callee(c, ctx.self_adt, self.bind(ctx))
             if d and d not in ctx.stack:
                 if args is None:
                     args = tuple(self.operand(ctx, a) for a in body.term(bb)["args"])
@@ -538,6 +591,28 @@ class Evaluator:
                            site=site, stack=ctx.stack + (d,), parent=(ctx, bb))
         ctx.memo[key] = nctx
         return nctx
+
+    def _conv_impl(self, c):
+        """def of the crate-local `From::from` that a `From::from` / `Into::into` call runs, or None (std conversions)"""
+        if PURE.get(callee_model_key(c)) not in ("from", "into"):
+            return None
+        F = self.facts
+        if c.name == "from":
+            d = c.resolved_def
+            return d if d and d in F.bodies else None
+        if c.name == "into" and len(c.gargs) >= 2:
+            target = adt_of(c.gargs[1]) if isinstance(c.gargs[1], dict) else None
+            if not target:
+                return None
+            cands = []
+            for i in F.impls_of_trait.get("std::convert::From", []):
+                if adt_of(i["self_ty"]) == target:
+                    m = i["items"].get("from")
+                    if isinstance(m, dict) and m["def"] in F.bodies:
+                        cands.append(m["def"])
+            if len(cands) == 1:
+                return cands[0]
+        return None
 
     def bind(self, ctx):
         """type-parameter bindings of ctx.body in ctx's world (set by Env)"""
@@ -566,6 +641,10 @@ class Evaluator:
             return ("call", "deref", args)
         if model in ("Option::expect", "Option::unwrap") and args:
             return payload_shallow(args[0])
+        if model == "ident" and args:
+            return args[0]
+        if model == "is_empty" and args:
+            return ("call", "eq", (("call", "len", (args[0],)), ("int", 0)))
         if model == "into" or model == "from":
             return ("call", "conv", args[:1])
         if model == "Try::branch":
